@@ -572,6 +572,129 @@ func factsOfSource(pk *packages.Package, fd *ast.FuncDecl, src ast.Expr, before 
 			}
 		}
 	}
+	// a validating helper of the package: `a, b, err := helper(x, y); if err != nil { …return }`.
+	// What is known about x after the call is what the helper's guards establish for the matching
+	// parameter on its successful return; when the variable itself is re-assigned from the call, what
+	// is known is what holds for the returned expression at the helper's (single, final) success
+	// return.
+	if id, ok := src.(*ast.Ident); ok {
+		obj := info.Uses[id]
+		var lastAssign *ast.AssignStmt
+		var lastIdx int
+		var passed []struct {
+			call *ast.CallExpr
+			idx  int
+			as   *ast.AssignStmt
+		}
+		ast.Inspect(fd.Body, func(n ast.Node) bool {
+			as, ok := n.(*ast.AssignStmt)
+			if !ok || as.End() > before || len(as.Rhs) != 1 {
+				return true
+			}
+			call, ok := ast.Unparen(as.Rhs[0]).(*ast.CallExpr)
+			if !ok {
+				return true
+			}
+			fn, ok := calleeOf(info, call).(*types.Func)
+			if !ok || fn.Pkg() != pk.Types || funcDeclOf(pk, fn) == nil {
+				return true
+			}
+			for i, l := range as.Lhs {
+				if lid, ok := l.(*ast.Ident); ok && (info.Uses[lid] == obj || info.Defs[lid] == obj) && obj != nil {
+					if lastAssign == nil || as.Pos() > lastAssign.Pos() {
+						lastAssign, lastIdx = as, i
+					}
+				}
+			}
+			for i, a := range call.Args {
+				if aid, ok := ast.Unparen(a).(*ast.Ident); ok && info.Uses[aid] == obj && obj != nil {
+					passed = append(passed, struct {
+						call *ast.CallExpr
+						idx  int
+						as   *ast.AssignStmt
+					}{call, i, as})
+				}
+			}
+			return true
+		})
+		// the caller leaves when the helper reports an error
+		errChecked := func(as *ast.AssignStmt) bool {
+			var errObj types.Object
+			for _, l := range as.Lhs {
+				if lid, ok := l.(*ast.Ident); ok {
+					o := info.Defs[lid]
+					if o == nil {
+						o = info.Uses[lid]
+					}
+					if o != nil && (isErrorType(o.Type()) || isNamed(o.Type(), pkgSubApi, "Error")) {
+						errObj = o
+					}
+				}
+			}
+			if errObj == nil {
+				return false
+			}
+			found := false
+			ast.Inspect(fd.Body, func(n ast.Node) bool {
+				ifs, ok := n.(*ast.IfStmt)
+				if !ok || ifs.Pos() < as.End() || ifs.End() > before || !exits(ifs.Body) {
+					return true
+				}
+				if o, nonNil, ok := nilTest(info, ifs.Cond); ok && o == errObj && nonNil {
+					found = true
+				}
+				return true
+			})
+			return found
+		}
+		successReturn := func(hd *ast.FuncDecl) *ast.ReturnStmt {
+			if n := len(hd.Body.List); n > 0 {
+				if rs, ok := hd.Body.List[n-1].(*ast.ReturnStmt); ok {
+					return rs
+				}
+			}
+			return nil
+		}
+		if lastAssign != nil && errChecked(lastAssign) {
+			call := ast.Unparen(lastAssign.Rhs[0]).(*ast.CallExpr)
+			hd := funcDeclOf(pk, calleeOf(info, call).(*types.Func))
+			if rs := successReturn(hd); rs != nil && lastIdx < len(rs.Results) {
+				return factsOfSource(pk, hd, rs.Results[lastIdx], rs.Pos())
+			}
+		}
+		for _, p := range passed {
+			if !errChecked(p.as) {
+				continue
+			}
+			fn := calleeOf(info, p.call).(*types.Func)
+			hd := funcDeclOf(pk, fn)
+			rs := successReturn(hd)
+			if rs == nil || p.idx >= fn.Type().(*types.Signature).Params().Len() {
+				continue
+			}
+			par := fn.Type().(*types.Signature).Params().At(p.idx)
+			// the parameter must not be re-assigned in the helper for its guards to speak about x
+			reassigned := false
+			ast.Inspect(hd.Body, func(n ast.Node) bool {
+				if as, ok := n.(*ast.AssignStmt); ok {
+					for _, l := range as.Lhs {
+						if lid, ok := l.(*ast.Ident); ok && info.Uses[lid] == types.Object(par) {
+							reassigned = true
+						}
+					}
+				}
+				return true
+			})
+			if reassigned {
+				continue
+			}
+			hf := factsOfSource(pk, hd, &ast.Ident{Name: par.Name(), NamePos: rs.Pos()}, rs.Pos())
+			f.nonempty = f.nonempty || hf.nonempty
+			f.ge0 = f.ge0 || hf.ge0
+			f.gt0 = f.gt0 || hf.gt0
+			f.nonnil = f.nonnil || hf.nonnil
+		}
+	}
 	// guards of the form `if X < 0 { … return }` / `if X == "" { … return }` before the submission
 	s := exprString(src)
 	ast.Inspect(fd.Body, func(n ast.Node) bool {
